@@ -173,11 +173,13 @@ def _title(t: Any) -> Any:
     if not t:
         return None
     # LinkRefDef keeps the title with its quotes; Link strips them. Normalise to the unquoted text.
+    from marko import inline
+
     if len(t) >= 2 and t[0] == t[-1] and t[0] in "\"'":
-        return t[1:-1]
-    if len(t) >= 2 and t[0] == "(" and t[-1] == ")":
-        return t[1:-1]
-    return t
+        t = t[1:-1]
+    elif len(t) >= 2 and t[0] == "(" and t[-1] == ")":
+        t = t[1:-1]
+    return inline.Literal.strip_backslash(t)
 
 
 def shape(text: str, with_tight: bool = False) -> tuple:
